@@ -879,14 +879,21 @@ inline CaseResult Execute(const Cell& cell, int cell_id, u64 idx, int pass, bool
       }
     }
     std::string oracle = "tsan-race@" + site;
-    // A race report is always a C04 violation.  In the cells whose property itself promises happens-before between the
-    // units they run (consecutive Strand jobs: C07; consecutive Mutex critical sections: C14) the jobs / sections write
-    // plain shared payload, so a report there also refutes that promise.
+    // A race report is always a C04 violation.  It also refutes the property of the cell it occurred in where that
+    // property itself promises visibility / happens-before: consecutive Strand jobs (C07) and Mutex critical sections
+    // (C14) write plain shared payload; "Ready() becomes true only once that Result can be read ... never delivered
+    // torn" (C01) and "Ready()==true implies the value can be read, no observer reads a partially written value" (C06)
+    // are statements under the C++ memory model, where a racing read of the Result is exactly a torn delivery.
+    static const struct {
+      const char* family;
+      const char* prefix;
+      const char* prop;
+    } kHbRules[] = {{"exec", "strand/", ",C07"}, {"cmutex", "mutex/", ",C14"}, {"core", "", ",C01"}, {"shared", "", ",C06"}};
     std::string props = "C04";
-    if (std::strcmp(g_cfg.family, "exec") == 0 && std::strncmp(cell.name, "strand/", 7) == 0) {
-      props += ",C07";
-    } else if (std::strcmp(g_cfg.family, "cmutex") == 0 && std::strncmp(cell.name, "mutex/", 6) == 0) {
-      props += ",C14";
+    for (auto& r : kHbRules) {
+      if (std::strcmp(g_cfg.family, r.family) == 0 && std::strncmp(cell.name, r.prefix, std::strlen(r.prefix)) == 0) {
+        props += r.prop;
+      }
     }
     ctx.Fail(oracle.c_str(), props.c_str(), "%llu ThreadSanitizer report(s) during this case:\n%s",
              (unsigned long long)tsan, brief.c_str());
